@@ -97,6 +97,7 @@ Inductive case :=
             (codes : list (list Z)) (out : Z)
 | CXcV0 (id : N) (is_payload : bool) (addrs idxs amounts : list Z) (outs : list (Z * Z))
         (minfee total_in : Z) (out : Z)
+| CArbSigs (id : N) (cok : bool) (members : list (list Z)) (codes : list (list Z)) (out : Z)
 | CRetSide (id : N) (out_ph out_value fee : Z) (dup : bool) (dep : option deposit_tx)
            (addr_ok : bool) (side : Z) (out : Z).
 
@@ -148,6 +149,8 @@ Definition check (c : case) : option N :=
       cmp id (outcome (schnorr_withdraw validate arbiters signers agg_ok redeem codes) =? out)
   | CXcV0 id isp addrs idxs amounts outs minfee tin out =>
       cmp id (outcome (crosschain_v0 isp addrs idxs amounts outs minfee tin) =? out)
+  | CArbSigs id cok members codes out =>
+      cmp id (outcome (arbiter_signatures (fun _ _ => cok) (in_tbl members) codes) =? out)
   | CRetSide id oph ov fee dup dep aok side out =>
       cmp id (outo (return_deposit_output oph ov fee dup dep aok side) =? out)
   end.
